@@ -298,6 +298,9 @@ class ProducerLayout:
     def __init__( self, g, fn, cname, art ):
         self.g = g; self.fn = fn; self.cname = cname; self.art = art
         self.unknown = []
+        # the accumulator is whatever name the function returns (renaming it is behaviour preserving)
+        rets = [ r.value.id for r in ast.walk( fn ) if isinstance( r, ast.Return ) and isinstance( r.value, ast.Name ) ]
+        self.res_name = max( set( rets ), key=rets.count ) if rets else 'result'
 
     def datapath( self, e, alias ):
         """data path text of an expression rooted at the artifact or an alias; None when not a data path"""
@@ -482,7 +485,7 @@ class ProducerLayout:
         return seqs
 
     def stmt( self, s, seqs, alias, loopvars ):
-        res_name = 'result'
+        res_name = self.res_name
         if isinstance( s, ast.AugAssign ) and dotted( s.target ) == res_name and isinstance( s.op, ast.Add ):
             out = []
             vs = self.expr_variants( s.value, alias, loopvars )
@@ -535,9 +538,12 @@ class ProducerLayout:
                 if is_call_to( s.iter, 'reversed' ) and s.iter.args:
                     lp = self.datapath( s.iter.args[0], alias )
             lv = dict( loopvars )
+            a_in = dict( alias )
             if isinstance( s.target, ast.Name ):
                 lv[s.target.id] = lp
-            body = self.block( s.body, [ Seq() ], dict( alias ), lv )
+                if lp is not None:
+                    a_in[s.target.id] = lp		# <loop var>.field is a field of an element of the iterated list
+            body = self.block( s.body, [ Seq() ], a_in, lv )
             subs = tuple( sorted( { b.atoms for b in body } ))
             if subs == ( (), ):
                 return seqs			# the loop appends nothing to the result
